@@ -24,7 +24,7 @@ UNIT = Unit(
            ])]),
         Fn(O, "opcodes_car_weight", home="C11", implicit_props=("C09", "C11"),
            ensures=[C("value", "res.0 as int == spec_car_weight(opcodes@)", "C11", "C05", char=True),
-                    C("rest", "res.1@ == (if opcodes@.len() == 0 { opcodes@ } else { opcodes@.skip(1) })", "C11"),
+                    C("rest", "res.1@ == (if opcodes@.len() == 0 { opcodes@ } else { opcodes@.skip(1) })", "C11", "C05"),
                     C("at_least_one", "opcodes@.len() > 0 ==> res.0 >= 1", "C11")],
            decreases="opcodes@.len(), 0int",
            injects=[Inject("entry", "proof { lemma_weight_range(opcodes@); }")]),
